@@ -577,15 +577,30 @@ def tag_table(prog, res, rule="T-TAGS"):
         raise AnalysisBroken("Tiff::append not found")
     f = apps[0]
 
-    def builder_ids(n, depth=0):
+    from .. import congr as _congr
+
+    def builder_ids(n, depth=0, pos=None):
         n = ir.strip(n)
-        if not isinstance(n, dict) or depth > 6:
+        if not isinstance(n, dict) or depth > 8:
             return set()
         if n.get("k") == "ref":
             t = f.resolve_ref(n)
-            return builder_ids(t, depth + 1) if t is not None else set()
+            return builder_ids(t, depth + 1, pos) if t is not None else set()
         if n.get("k") == "cond":
-            return builder_ids(n.get("t"), depth + 1) | builder_ids(n.get("f"), depth + 1)
+            return builder_ids(n.get("t"), depth + 1, pos) | builder_ids(n.get("f"), depth + 1, pos)
+        if n.get("k") in ("construct", "cinit") and n.get("args"):
+            out_ = set()
+            for a_ in n["args"]:
+                out_ |= builder_ids(a_, depth + 1, pos)
+            return out_
+        if n.get("k") == "var" and "p" not in n and pos is not None:
+            # a tag built once (outside the frame loop) and kept in a local
+            d_ = _congr.reaching_def(f, pos, n["id"])
+            if d_ is None:
+                for b_, i_, s2 in f.all_stmts():
+                    if s2.get("k") == "decl" and s2["var"].get("id") == n["id"] and "init" in s2:
+                        d_ = s2["init"]
+            return builder_ids(d_, depth + 1, pos) if d_ is not None else set()
         if n.get("k") == "call":
             g = prog.resolve(n.get("fn"), f) if n.get("fn") else None
             if g is not None and g.name in ids:
@@ -602,7 +617,7 @@ def tag_table(prog, res, rule="T-TAGS"):
             for el in s_["init"].get("elts", []):
                 v = el.get("v")
                 if isinstance(v, dict) and v.get("k") == "init" and "tag_t" in str(v.get("t", "")):
-                    tables.append((s_, [builder_ids(e.get("v")) for e in v.get("elts", [])]))
+                    tables.append((s_, [builder_ids(e.get("v"), 0, (b.id, i)) for e in v.get("elts", [])]))
     if not tables:
         raise AnalysisBroken("Tiff::append: the directory's tag table was not found")
     for s_, seq in tables:
